@@ -44,13 +44,13 @@ ROOT = yaql.create_context()
 SECRET = 'S3CR3T-MARKER'
 
 # ---------------------------------------------------------------- policy menu
-MENU = ['ab', '_a', re.compile('^a'), (lambda n: n.startswith('b'))]
-MENU_DESC = ["'ab'", "'_a'", "re.compile('^a')", "lambda n: n.startswith('b')"]
+MENU = ['ab', '_a', re.compile('a'), (lambda n: n.startswith('b'))]
+MENU_DESC = ["'ab'", "'_a'", "re.compile('a') (unanchored: entries are searched, not matched)", "lambda n: n.startswith('b')"]
 NM = 1 << len(MENU)
 
 
 def menu_match(k, name):
-    return [name == 'ab', name == '_a', name.startswith('a'), name.startswith('b')][k]
+    return [name == 'ab', name == '_a', 'a' in name, name.startswith('b')][k]
 
 
 def subset(mask):
@@ -150,7 +150,7 @@ def access_expr(path, name):
     raise ValueError(path)
 
 
-NAMES = ['a', 'ab', 'b', 'c', '_a', '__d__', 'zz', 'zm']
+NAMES = ['a', 'ab', 'b', 'c', 'ca', '_a', '__d__', 'zz', 'zm', '{0.secret}', '{0[secret]}{0.__class__}', '%(secret)s']
 NAMEBOX = [(n,) for n in NAMES]
 PATH = H.P('path', 0)
 BOX16 = [(i,) for i in range(16)]
@@ -238,6 +238,12 @@ def auto_yaqlize_scope(via: int, then: int, auto: bool) -> bool:
                 log.append((object.__getattribute__(self, 'tag'), 'item', key))
                 return SECRET
 
+        # the class itself carries a policy (decorator form): instances reached through an auto-yaqlizing owner keep it
+        yaqlization.yaqlize(Vault, blacklist=['secret'])
+        del Vault.__yaqlization__
+        policy = bool(H.P('class_policy'))
+        if policy:
+            yaqlization.yaqlize(Vault, blacklist=['secret'], yaqlize_indexer=False)
         granted, other = Vault('granted'), Vault('other')
 
         class Owner:
@@ -262,7 +268,13 @@ def auto_yaqlize_scope(via: int, then: int, auto: bool) -> bool:
                 texts.append(str(e))
         touched_other = [e for e in log if e[0] == 'other']
         touched_granted = [e for e in log if e[0] == 'granted']
-        ok = not touched_other and SECRET not in texts[1] and (bool(touched_granted) == auto)
+        if policy:
+            # every Vault is yaqlized by its class with 'secret' blacklisted and indexing off: neither hop may reach it
+            ok = not [e for e in log if e[2] == 'secret' or e[1] == 'item'] and SECRET not in ''.join(texts)
+            if ok and then == 1:
+                ok = ('granted', 'attr', 'reveal') in log and ('other', 'attr', 'reveal') in log      # allowed member stays allowed
+        else:
+            ok = not touched_other and SECRET not in texts[1] and (bool(touched_granted) == auto)
     return H.done(ok)
 
 
@@ -291,7 +303,7 @@ def _gen():
 
 def fillers():
     lam = ENG('$')
-    return [1, 'a', 2.5, True, None, (1, 2), ('a', 'b'), utils.FrozenDict({'a': 1}), frozenset([1]), _gen,
+    return [1, 'a', '{0.secret}{0[0]}', 2.5, True, None, (1, 2), ('a', 'b'), utils.FrozenDict({'a': 1}), frozenset([1]), _gen,
             re.compile('a'), ((1, 2), (3, 4))]
 
 
@@ -423,11 +435,11 @@ def conditions(tier, seed):
     out = []
     nlen = 3 if tier == 'quick' else 4
     t = 200 if tier == 'quick' else 900
-    for lo in range(0, NM, 4):
-        out.append({'name': 'policy[wl=%d-%d]' % (lo, lo + 3), 'func': 'policy', 'timeout': t,
-                    'param': {'nlen': nlen, 'wlo': lo, 'whi': lo + 4},
+    for lo in range(0, NM, 2):
+        out.append({'name': 'policy[wl=%d-%d]' % (lo, lo + 1), 'func': 'policy', 'timeout': t,
+                    'param': {'nlen': nlen, 'wlo': lo, 'whi': lo + 2},
                     'bounds': 'name: any str len<=%d; whitelist subsets %d..%d and all %d blacklist subsets of the menu %s' % (
-                        nlen, lo, lo + 3, NM, MENU_DESC)})
+                        nlen, lo, lo + 1, NM, MENU_DESC)})
     out.append({'name': 'remap_blacklisted', 'func': 'remap_blacklisted', 'timeout': 100, 'bounds': 'target from zz,_t,a,empty; plain or (name, argmap) form; flag on/off'})
     forms = ['$o.NAME', '$o.NAME(1, k=>2)', '$o[NAME]', 'call(NAME, [], {}, $o)']
     for path in range(4):
@@ -439,6 +451,9 @@ def conditions(tier, seed):
                                   'menu %s' % (NAMES, forms[path], masks, MENU_DESC)})
         out.append({'name': 'access_switch[path=%d]' % path, 'func': 'access_switch', 'timeout': t, 'param': {'path': path},
                     'bounds': 'NAME from %r through %s; 3 yaqlization switches, remapping on/off, yaqlized or not' % (NAMES, forms[path])})
+    out.append({'name': 'auto_yaqlize_scope[class-policy]', 'func': 'auto_yaqlize_scope', 'timeout': 100, 'param': {'class_policy': True},
+                'bounds': 'as auto_yaqlize_scope, the returned object\'s class is itself yaqlized with a blacklist and indexing off: '
+                          'the class policy must survive the auto-yaqlizing hop'})
     out.append({'name': 'auto_yaqlize_scope', 'func': 'auto_yaqlize_scope', 'timeout': 100,
                 'bounds': 'owner yaqlized with autoYaqlizeResult on/off returns a host object through attribute, method or index; a '
                           'second, never yaqlized instance of the same class is then accessed by attribute, method or index '
@@ -449,8 +464,8 @@ def conditions(tier, seed):
     step = 12
     for lo in range(0, nd, step):
         out.append({'name': 'sweep[defs=%d-%d]' % (lo, min(nd, lo + step) - 1), 'func': 'sweep', 'timeout': 300,
-                    'param': {'dlo': lo, 'dhi': lo + step, 'nfill': 3 if tier == 'quick' else 12},
-                    'bounds': 'definitions %d..%d of the live registry (%d in total) x every visible position x 4 wrappings of the canary x 3 (quick) / 12 '
+                    'param': {'dlo': lo, 'dhi': lo + step, 'nfill': 2 if tier == 'quick' else 12},
+                    'bounds': 'definitions %d..%d of the live registry (%d in total) x every visible position x 4 wrappings of the canary x 2 (quick) / 12 '
                               '(thorough) type-compatible filler rotations; non-yaqlized canary; selectors only (each path one concrete call)' % (lo, min(nd, lo + step) - 1, nd)})
     for key in sorted(KNOWN):
         if key.startswith('C07/canary-reached-by/'):
